@@ -513,7 +513,7 @@ func facetRoute(args []string) error {
 	stats := map[string]int{}
 	for i, rs := range specs {
 		r := results[i]
-		fmt.Fprintf(gf, "%s\t%s\t%s\t%s\t%s\n", r.Name, r.Outcome, hexs(firstLine(r.Detail)), hexs(r.Broken), hexs(string(rs.Gen.Spec)))
+		fmt.Fprintf(gf, "%s\t%s\t%s\t%s\t%s\n", r.Name, r.Outcome, hexs(firstLine(r.Detail)), hexs(brokenOrFmt(r)), hexs(string(rs.Gen.Spec)))
 		if r.Outcome != "ok" || r.Broken != "" {
 			stats["spec_not_driven"]++
 			continue
